@@ -172,3 +172,25 @@ def run(prog, chk):
                 "key": "%s['key-size']" % info,
                 "mac": "self._mac_info[self.%s_mac]['class']().digest_size" % side}[what]
         chk.ob("R4.length", "%s:%s:%s" % cell, exp == set([want]), fl.where(n), "length %s (want %s)" % (sorted(exp), want))
+    # R5: the Packetizer installs exactly what the transport derived.  Each setter stores its key material parameters
+    # (cipher object, MAC key, nonce) as passed in: no parameter is rebound and the stored expression is the bare
+    # parameter - an IV "carried over" from the previous keys is not the initial IV of RFC 4253 s7.2.
+    for setter, suffix in (("set_outbound_cipher", "_out"), ("set_inbound_cipher", "_in")):
+        sf = prog.method("Packetizer", setter)
+        fs = Flow(prog, sf, implicit=False)
+        ps_ = sf.params()[1:]
+        want = {"block_engine": "__block_engine" + suffix, "mac_key": "__mac_key" + suffix, "mac_engine": "__mac_engine" + suffix,
+                "mac_size": "__mac_size" + suffix, "block_size": "__block_size" + suffix}
+        ivp = [p_ for p_ in ps_ if p_.startswith("iv")]
+        if len(ivp) == 1:
+            want[ivp[0]] = "__iv" + suffix
+        n5 = 0
+        for par, attr in sorted(want.items()):
+            if par not in ps_:
+                raise AnalysisError("Packetizer.%s" % setter, "parameter %s not found" % par)
+            ws = fs.nodes(lambda n: n.kind == "stmt" and isinstance(n.ast, ast.Assign) and any(unparse(t).endswith("self." + attr) or unparse(t) == "self." + attr for t in n.ast.targets))
+            okp = len(ws) == 1 and isinstance(ws[0].ast.value, ast.Name) and ws[0].ast.value.id == par and all(dn.kind == "entry" for (dn, rhs) in fs.defs(par, ws[0]))
+            n5 += 1
+            chk.ob("R5.installed-as-derived", "%s:%s" % (setter, par), okp, sf.loc,
+                   "self.%s = %s" % (attr, [unparse(w.ast.value) for w in ws] or "never assigned") + ("" if okp else " - not the parameter as passed in"))
+        chk.floor("R5", "key-material parameters of %s" % setter, n5, 5)
